@@ -43,7 +43,8 @@ ID = "C17"
 RULE = (
     "cases generated from rng([seed, index]): fit_circuit (4-9 methods x 2-4 weights in shuffled order; exact-start "
     "ideal R / RC / (RC) data where several candidates reach the same pseudo chi-squared to the last bit, and noisy mock "
-    "spectra), perform_zhit with 'auto' options (ideal R, C, Q, L spectra = exact ties across smoothing/interpolation; noisy mock spectra; "
+    "spectra, and noisy spectra fitted under user constraint expressions / variables whose dictionaries are shared by the serial "
+    "reference and its repeat and must come back unmodified), perform_zhit with 'auto' options (ideal R, C, Q, L spectra = exact ties across smoothing/interpolation; noisy mock spectra; "
     "noisy spectra with a narrow window centred on a measured frequency = exact ties across windows only), "
     "evaluate_log_F_ext(num_F_ext_evaluations in {10,20}) + suggest_num_RC for the six linear tests, KK 'cnls' over a "
     "num_RC range (explicit and automatically limited), perform_kramers_kronig_test (thorough), generate_mock_data "
@@ -216,7 +217,38 @@ def _case_fit(rng, tier, tie):
     nw = int(rng.integers(2, 5))
     methods = [str(m) for m in rng.permutation(METHODS)[:nm]]
     weights = [str(w) for w in rng.permutation(WEIGHTS)[:nw]]
-    if tie:
+    if tie == "constrained":
+        # user constraints: an expression ties one resistance to another through a user-defined variable whose start
+        # value is far from its lower bound.  The SAME dictionaries are handed to the serial reference and to the serial
+        # repeat (a caller who simply calls again); pooled runs get fresh copies.
+        import pyimpspec
+
+        if rng.random() < 0.6:
+            gen = "R{R=100}(R{R=200}C{C=0.8e-6})(R{R=500}C{C=4e-4})"
+            vals = tuple(float(f"{v * 10 ** rng.uniform(-0.2, 0.2):.4g}") for v in (100, 200, 0.8e-6, 500, 4e-4))
+            cdc = "R{R=%g}(R{R=%g}C{C=%g})(R{R=%g}C{C=%g})" % vals
+            ce = {"R_3": "R_1 + alpha"}
+            cv = {"alpha": {"value": float(np.round(rng.uniform(150, 450), 1)), "min": float(rng.choice([1.0, -1000.0]))}}
+            lo, hi = -1.0, 4.0
+        else:
+            gen = "R{R=100}(R{R=200}C{C=0.8e-6})"
+            vals = tuple(float(f"{v * 10 ** rng.uniform(-0.2, 0.2):.4g}") for v in (100, 200, 0.8e-6))
+            cdc = "R{R=%g}(R{R=%g}C{C=%g})" % vals
+            ce = {"R_1": "beta * R_0"}
+            cv = {"beta": {"value": float(np.round(rng.uniform(1.5, 3.0), 2)), "min": 0.1, "max": 10.0}, "unused": {"value": 5.0, "min": -3.0, "vary": False}}
+            lo, hi = 0.0, 4.0
+        ids = pyimpspec.generate_fit_identifiers(pyimpspec.parse_cdc(cdc))
+        known = {f"{sym}_{i}" for i, e in enumerate(ids) for sym in e.get_values()}
+        known = {getattr(m, sym) for e, m in ids.items() for sym in e.get_values()} or known
+        assert set(ce) <= known and all(tok in known for ex in ce.values() for tok in ex.replace("*", " ").replace("+", " ").split() if tok[:2] in ("R_", "C_")), (ce, known)
+        spec = _mock_spec(rng, ppd_choices=(3, 4), idents=[gen])
+        spec["kw"].update(log_max_f=hi, log_min_f=lo)
+        c.update(src="mock-constrained", spec=spec, cdc=cdc, first="constrained", constraint_expressions=ce, constraint_variables=cv, identifiers_known=sorted(known))
+        nm = int(rng.integers(3, 5))
+        nw = 2
+        methods = [str(m) for m in rng.permutation(["least_squares", "powell", "lbfgsb", "nelder", "leastsq", "slsqp"])[:nm]]
+        weights = [str(w) for w in rng.permutation(["modulus", "boukamp", "unity"])[:nw]]
+    elif tie:
         log_max, log_min, ppd = _grid(rng, 8, 30)
         n = int(round((log_max - log_min) * ppd)) + 1
         f = np.logspace(log_max, log_min, n)
@@ -368,6 +400,7 @@ def gen_cases(tier, seed):
             (_case_zhit, ("Q",)), (_case_fit, ("R-far",)), (_case_mock, ()),
             (_case_kkext_cnls, ()), (_case_kkext, ()), (_case_zhit, ("W", "ffa")),
             (_case_zhit, ("W", "ffa")), (_case_zhit, ("W", "afa")),
+            (_case_fit, ("constrained",)), (_case_fit, ("constrained",)),
         ]
     else:
         plan = []
@@ -383,6 +416,7 @@ def gen_cases(tier, seed):
             if i % 4 == 1:
                 plan.append((_case_kkext, (True,)))
         plan += [(_case_zhit, ("W", w)) for w in ("ffa", "ffa", "afa", "faa", "aaa", "ffa")]
+        plan += [(_case_fit, ("constrained",))] * 5
         plan += [(_case_cnls, (True,)), (_case_kkext_cnls, ()), (_case_mock, ()), (_case_mock, ())]
     for fn, a in plan:
         add(fn, *a)
@@ -431,7 +465,24 @@ def _arr(x):
     return np.ascontiguousarray(a, dtype=np.float64).ravel()
 
 
-def _call(case, data, P):
+_LIVE = {}  # per case: the constraint dictionaries shared by the serial reference and the serial repeat
+
+
+def _constraints(case, run):
+    """-> (constraint_expressions, constraint_variables) objects to hand to fit_circuit for this run."""
+    import copy
+
+    if "constraint_variables" not in case:
+        return None, None
+    if run is not None and run.get("tag") in ("ref", "repeat"):
+        if "cv" not in _LIVE:
+            _LIVE["ce"] = copy.deepcopy(case["constraint_expressions"])
+            _LIVE["cv"] = copy.deepcopy(case["constraint_variables"])
+        return _LIVE["ce"], _LIVE["cv"]
+    return copy.deepcopy(case["constraint_expressions"]), copy.deepcopy(case["constraint_variables"])
+
+
+def _call(case, data, P, run=None):
     """-> (identity tuple, {name: float64 array}) of the result of the library call of this case."""
     import pyimpspec
     from pyimpspec.analysis.kramers_kronig.exploratory import evaluate_log_F_ext
@@ -439,7 +490,13 @@ def _call(case, data, P):
     kind = case["kind"]
     o = case["opts"]
     if kind == "fit":
-        r = pyimpspec.fit_circuit(pyimpspec.parse_cdc(case["cdc"]), data, method=list(o["method"]), weight=list(o["weight"]), max_nfev=o["max_nfev"], num_procs=P)
+        ce, cv = _constraints(case, run)
+        extra = {} if cv is None else {"constraint_expressions": ce, "constraint_variables": cv}
+        try:
+            r = pyimpspec.fit_circuit(pyimpspec.parse_cdc(case["cdc"]), data, method=list(o["method"]), weight=list(o["weight"]), max_nfev=o["max_nfev"], num_procs=P, **extra)
+        finally:
+            if cv is not None:
+                _LIVE["mutated"] = None if (ce == case["constraint_expressions"] and cv == case["constraint_variables"]) else {"constraint_expressions": ce, "constraint_variables": cv}
         ident = {
             "method": r.method,
             "weight": r.weight,
@@ -550,13 +607,15 @@ def _execute(case, data, run, tmp, j):
         S.begin(log, sched)
         with warnings.catch_warnings():
             warnings.simplefilter("ignore")
-            ident, nums = _call(case, data, int(run["P"]))
+            _LIVE.pop("mutated", None)
+            ident, nums = _call(case, data, int(run["P"]), run)
         out.update(outcome="ok", ident=ident, nums=nums)
     except Exception as e:
         o = monitors.exception_origin(e)
         out.update(outcome="exc", exc=type(e).__name__, origin=f"{o['file']}:{o['func']}", text=str(e)[:200], tb=monitors.tb_tail(e, 5))
     finally:
         S.end()
+        out["cv_mutated"] = _LIVE.pop("mutated", None)
         if "override" in run:
             U.set_default_num_procs(-1)
             after = U.get_default_num_procs()
@@ -671,6 +730,7 @@ def run_case(case):
 def _run_analysis(case, kind, tmp):
     stage = MAIN_STAGE[kind]
     stats, maxobs, viol = {}, {}, []
+    _LIVE.clear()
     data = _dataset(case)
     runs = case["runs"]
     results = []
@@ -686,6 +746,18 @@ def _run_analysis(case, kind, tmp):
         r = _execute(case, data, run, tmp, j)
         results.append(r)
         stats[f"{kind}.runs.{run['tag']}"] = stats.get(f"{kind}.runs.{run['tag']}", 0) + 1
+        if "constraint_variables" in case:
+            evals += 1
+            stats["cmp.fit.constraint_dicts_untouched"] = stats.get("cmp.fit.constraint_dicts_untouched", 0) + 1
+            if r.get("cv_mutated") and not any(v["key"] == "C17/fit/constraint-dict-mutated" for v in viol):
+                viol.append(
+                    {
+                        "key": "C17/fit/constraint-dict-mutated",
+                        "msg": f"fit_circuit (run {run['tag']}, num_procs={run['P']}) altered the caller's constraint dictionaries, so repeating the same call is no longer "
+                        f"the same call: passed {case['constraint_expressions']} / {case['constraint_variables']}, afterwards {r['cv_mutated']}",
+                        "witness": {"before": {"constraint_expressions": case["constraint_expressions"], "constraint_variables": case["constraint_variables"]}, "after": r["cv_mutated"], "replay_case": {**{k: v for k, v in case.items() if k != "runs"}, "runs": [runs[0]]}},
+                    }
+                )
         L = S.read_log(r["log"])
         recs = L.get(stage, [])
         for k2, v in L.items():
